@@ -35,6 +35,7 @@ const (
 	FStorageErr      FaultKind = "storage_err" // system-store error seen by the worker
 	FBodyCut         FaultKind = "body_cut"    // request body cut (unexpected EOF)
 	FBodyErr         FaultKind = "body_err"    // request body read error
+	FBodyTrunc       FaultKind = "body_trunc"  // request body ends early but cleanly (Arg selects the offset)
 	FClockJump       FaultKind = "clock_jump"  // DB clock jumps (Arg = milliseconds, may be negative)
 	FShutdown        FaultKind = "shutdown"    // internal: the run is over
 )
@@ -151,6 +152,7 @@ type World struct {
 	cancels     map[string]context.CancelFunc // op id -> cancel of its request context
 	deadCancels []context.CancelFunc
 	gone        map[string]chan struct{} // op id -> closed when the client of that request goes away
+	delivered   map[string]int           // op id -> bytes of a faulted body that reached the server
 	firedAt     []FaultAt
 }
 
@@ -167,6 +169,7 @@ func NewWorld() *World {
 		fired:      map[FaultKind]int{},
 		cancels:    map[string]context.CancelFunc{},
 		gone:       map[string]chan struct{}{},
+		delivered:  map[string]int{},
 	}
 	w.db = NewDB(&w.eventCtr)
 	w.db.chooseVictim = w.chooseVictim
@@ -451,7 +454,7 @@ func (w *World) decideFault(p *parkedTask) *Fault {
 	if k == FClockJump {
 		f.Arg = []int{-3600000, -5, 5, 3600000}[w.explore.Fault.Intn(4)]
 	}
-	if k == FBodyCut {
+	if k == FBodyCut || k == FBodyTrunc {
 		f.Arg = w.explore.Fault.Intn(1 << 16)
 	}
 	w.faultsN++
